@@ -64,6 +64,7 @@ def run(ctx):
         fs = set(ctx.rng.sample(range(ncalls + 2), min(k, ncalls + 2)))
         n = writercheck.explore(ctx, wm, cfg, r_ops, fs, pre, bound=0, nrandom=ctx.pick(2, 6), limit=10, sink=col)
         ctx.evaluations += n
+  plugin_glue(ctx)
   # beyond the listed property: the tag registration queue the writer feeds (TagQueue.tla; deviations = drift)
   from . import tagsys
   wm.configure(None, None, None)
@@ -76,6 +77,49 @@ def run(ctx):
   k = next((i for i, t in enumerate(col.traces) if any(e['k'] == 'db' and not e['ok'] for e in t['ev'])), 0)
   ctx.sample(dict(kind='recorded writer execution with an injected fault', origin={x: y for x, y in col.origins[k].items() if x != 'cfg'},
                   events=[e for e in col.traces[k]['ev'] if e['k'] != 'cnt'][:18]))
+
+
+def plugin_glue(ctx):
+  """the writer can only account for a failed write if the database plugin lets the failure through: the real
+  WhisperDatabase / CeresDatabase glue over stand-in libraries whose calls fail in various ways"""
+  import errno
+  import os
+  import carbon.database as cdb
+  import whisper as wstub
+  from . import env
+  settings = env.bootstrap(ctx.scratch)
+  root = os.path.join(ctx.scratch, 'glue-data')
+  os.makedirs(root, exist_ok=True)
+  settings['LOCAL_DATA_DIR'] = root
+  for kk in ('WHISPER_AUTOFLUSH', 'WHISPER_SPARSE_CREATE', 'WHISPER_FALLOCATE_CREATE', 'WHISPER_LOCK_WRITES', 'WHISPER_FADVISE_RANDOM'):
+    settings[kk] = False
+  db = cdb.WhisperDatabase(settings)
+
+  class Corrupt(Exception):
+    pass
+  failures = [IOError(errno.ENOENT, 'No such file or directory'), IOError(errno.EACCES, 'Permission denied'), OSError(errno.ENOSPC, 'No space left'),
+              Corrupt('corrupt file'), ValueError('bad archive'), KeyError('x')]
+  orig_update, orig_create = wstub.update_many, wstub.create
+  try:
+    for exc in failures:
+      for op in ('write', 'create'):
+        def boom(*a, **k):
+          raise exc
+        wstub.update_many, wstub.create = (boom, orig_create) if op == 'write' else (orig_update, boom)
+        ctx.evaluations += 1
+        try:
+          if op == 'write':
+            db.write('glue.m1', [(1000, 1.0), (1060, 2.0)])
+          else:
+            db.create('glue.m%d' % ctx.evaluations, [(60, 10)], 0.5, 'average')
+          swallowed = True
+        except BaseException as e:
+          swallowed = e is not exc and not isinstance(e, type(exc))
+        if swallowed:
+          ctx.violation('the whisper plugin swallowed a failing backend %s (%r): the writer counts the datapoints as written / the file as '
+                        'created, nothing is persisted and nothing is reported' % (op, exc), dict(op=op, failure=repr(exc)), signature='glue-swallowed')
+  finally:
+    wstub.update_many, wstub.create = orig_update, orig_create
 
 
 def replay(ctx, rp):
